@@ -15,10 +15,14 @@
 (* Invariants = the property-level predicates of Reservation evaluated on  *)
 (* the cache layer: InvL InvX1 InvX2 InvO InvM.                            *)
 (*                                                                         *)
-(* FixLedger / FixNominate select the repaired behaviour (TRUE) or the     *)
-(* behaviour of the code as shipped (FALSE) for the two places where the   *)
-(* shipped code breaks the property; MC_bug_*.cfg show the model-level     *)
-(* counterexamples, the registered configurations use TRUE.                *)
+(* FixLedger / FixNominate / FixOrphan select the repaired behaviour       *)
+(* (TRUE) or the behaviour of the code as shipped (FALSE) for the three    *)
+(* places where the shipped code breaks the property; MC_bug_*.cfg show    *)
+(* the model-level counterexamples, the registered configurations use TRUE.*)
+(* FixOrphan: the cache remembers (orphanPods) a bound pod delivered       *)
+(* before the reservation it is annotated with and hands it to the         *)
+(* ReservationInfo when updateReservation creates it; as shipped the pod   *)
+(* was dropped and the reservation reported nothing allocated (C19).       *)
 (***************************************************************************)
 EXTENDS Reservation, Json, SequencesExt
 
@@ -28,7 +32,7 @@ CONSTANTS Nodes, Uids, Pods,
           PodAttr,       \* pod -> [ns, app, ctrl]
           TermPhases,    \* terminal phases explored
           TermVals, DeadVals,   \* deletion-timestamp / completed-pod flags explored (BOOLEAN or {FALSE})
-          FixLedger, FixNominate,
+          FixLedger, FixNominate, FixOrphan,
           AllowMigrate,  \* extended multi-scheduler transition: an available reservation re-bound to another node
           Recording, K   \* Gen: record the operations in hist / bound on its length
 
@@ -37,10 +41,11 @@ VARIABLES api,      \* uid -> reservation object held by the API server
           papi,     \* pod -> pod object [pnode, ra, req, dead]
           pasm,     \* pod -> uid  : owner pod assumed on a reservation, binding cycle pending
           cinfo,    \* cache: uid -> [o, names, allocd, pods]
+          orph,     \* cache: uid -> (pod -> request)  orphanPods: pods seen before their reservation
           onNode, matchable, allocIdx,   \* cache: node -> set of uids
           hist
 evars == <<api, asm, papi, pasm>>
-cvars == <<cinfo, onNode, matchable, allocIdx>>
+cvars == <<cinfo, orph, onNode, matchable, allocIdx>>
 mvars == <<vars, evars, cvars>>
 
 D3 == {"cpu", "memory", "pods"}
@@ -55,14 +60,23 @@ Obj(s, node, phase, term) == [node |-> node, phase |-> phase, policy |-> s.polic
 WithSpec(o, s) == Obj(s, o.node, o.phase, o.term)
 
 (******************************* the cache **********************************)
-CC == [cinfo |-> cinfo, onNode |-> onNode, matchable |-> matchable, allocIdx |-> allocIdx]
-CBecomes(C) == cinfo' = C.cinfo /\ onNode' = C.onNode /\ matchable' = C.matchable /\ allocIdx' = C.allocIdx
+CC == [cinfo |-> cinfo, orph |-> orph, onNode |-> onNode, matchable |-> matchable, allocIdx |-> allocIdx]
+CBecomes(C) == cinfo' = C.cinfo /\ orph' = C.orph /\ onNode' = C.onNode /\ matchable' = C.matchable /\ allocIdx' = C.allocIdx
 
 \* ReservationInfo.IsMatchable
 IsMatchable(i) == /\ i.o.node # "" /\ i.o.phase = "Available"
                   /\ ~i.o.bad
                   /\ ~(i.o.once /\ DOMAIN i.pods # {})
 NewInfo(o) == [o |-> o, names |-> Names(o), allocd |-> ZeroV, pods |-> <<>>]
+\* updateReservation creating the info: AddAssignedPod for every orphan pod (masked adds, in any order = the sum)
+Orphans(C, u) == IF u \in DOMAIN C.orph THEN C.orph[u] ELSE <<>>
+NewInfoAdopting(o, pods) == [o |-> o, names |-> Names(o), allocd |-> Recompute(pods, Names(o)), pods |-> pods]
+\* forgetOrphanPod
+ForgetOrphan(C, u, p) ==
+    IF u \in DOMAIN C.orph
+    THEN LET rest == Without(C.orph[u], p)
+         IN [C EXCEPT !.orph = IF DOMAIN rest = {} THEN Without(@, u) ELSE WithKey(@, u, rest)]
+    ELSE C
 \* ReservationInfo.UpdateReservation: the shipped code masks the old amounts with the new dimension set
 UpdInfo(i, o) == [o |-> o, names |-> Names(o), pods |-> i.pods,
                   allocd |-> IF FixLedger THEN Recompute(i.pods, Names(o)) ELSE Mask(i.allocd, Names(o))]
@@ -75,8 +89,9 @@ Refresh(C, u, n) ==
                         !.allocIdx[n] = IF DOMAIN C.cinfo[u].pods # {} THEN @ \cup {u} ELSE @ \ {u}]
          ELSE [C EXCEPT !.matchable[n] = @ \ {u}, !.allocIdx[n] = @ \ {u}]
 cUpsert(C, u, o) ==
-    LET i  == IF u \in DOMAIN C.cinfo THEN UpdInfo(C.cinfo[u], o) ELSE NewInfo(o)
-        C1 == [C EXCEPT !.cinfo = WithKey(@, u, i)]
+    LET i  == IF u \in DOMAIN C.cinfo THEN UpdInfo(C.cinfo[u], o)
+              ELSE IF FixOrphan THEN NewInfoAdopting(o, Orphans(C, u)) ELSE NewInfo(o)
+        C1 == [C EXCEPT !.cinfo = WithKey(@, u, i), !.orph = IF u \in DOMAIN C.cinfo THEN @ ELSE Without(@, u)]
         C2 == IF o.node # "" THEN [C1 EXCEPT !.onNode[o.node] = @ \cup {u}] ELSE C1
     IN Refresh(C2, u, o.node)
 cIfExists(C, u, o) == IF u \in DOMAIN C.cinfo THEN Refresh([C EXCEPT !.cinfo[u] = UpdInfo(@, o)], u, o.node) ELSE C
@@ -101,10 +116,13 @@ RemovePod(C, u, p) ==
         n  == i2.o.node
     IN IF DOMAIN i2.pods = {} /\ n # "" THEN [C1 EXCEPT !.allocIdx[n] = @ \ {u}] ELSE C1
 cAddPods(C, u, p, req) == AddPod(C, u, p, req)                                     \* caller checks known / terminating
-cDeletePods(C, u, p)   == IF u \in DOMAIN C.cinfo THEN RemovePod(C, u, p) ELSE C
+cDeletePods(C, u, p)   == LET C0 == ForgetOrphan(C, u, p) IN IF u \in DOMAIN C0.cinfo THEN RemovePod(C0, u, p) ELSE C0
 cUpdatePod(C, oldU, newU, hasOld, p, req) ==
     LET C1 == IF hasOld /\ oldU \in DOMAIN C.cinfo THEN RemovePod(C, oldU, p) ELSE C
-    IN IF newU \in DOMAIN C1.cinfo THEN AddPod(C1, newU, p, req) ELSE C1
+        C2 == IF hasOld THEN ForgetOrphan(C1, oldU, p) ELSE C1
+    IN IF newU \in DOMAIN C2.cinfo THEN AddPod(C2, newU, p, req)
+       ELSE IF newU # "" /\ FixOrphan THEN [C2 EXCEPT !.orph = WithKey(@, newU, WithKey(Orphans(C2, newU), p, req))]
+       ELSE C2
 
 \* the plugin's informer handlers
 hROnAdd(C, u, o)    == IF Active(o) THEN cUpsert(C, u, o) ELSE C
@@ -225,7 +243,7 @@ PodDelete(p) == /\ p \in DOMAIN papi
                 /\ Emit(<<PEv("podDelete", p, papi[p])>>) /\ UNCHANGED <<api, asm, pasm>>
 
 Init0 == /\ Init /\ api = <<>> /\ asm = <<>> /\ papi = <<>> /\ pasm = <<>>
-         /\ cinfo = <<>> /\ onNode = [n \in Nodes |-> {}] /\ matchable = [n \in Nodes |-> {}] /\ allocIdx = [n \in Nodes |-> {}]
+         /\ cinfo = <<>> /\ orph = <<>> /\ onNode = [n \in Nodes |-> {}] /\ matchable = [n \in Nodes |-> {}] /\ allocIdx = [n \in Nodes |-> {}]
          /\ hist = <<[op |-> "reset"]>>
 NextR == \E u \in Uids :
             \/ \E s \in RSpecs : \/ ApiCreate(u, s)
@@ -282,6 +300,10 @@ ReqsI == {[cpu |-> 1]}
 InvL == /\ DOMAIN cinfo = DOMAIN res
         /\ \A u \in DOMAIN cinfo : /\ DOMAIN cinfo[u].pods = DOMAIN assigned[u]
                                    /\ \A d \in D3 : cinfo[u].allocd[d] = FromScratch(Cur, u, d)
+\* the pods the cache remembers for unknown reservations are the remembered pods of the abstract state
+InvR == /\ DOMAIN orph = DOMAIN assigned \ DOMAIN res
+        /\ \A u \in DOMAIN orph : /\ DOMAIN orph[u] = DOMAIN assigned[u]
+                                  /\ \A p \in DOMAIN orph[u] : orph[u][p] = assigned[u][p]
 InvX1 == NoDangling(Cur, onNode) /\ NoDangling(Cur, matchable) /\ NoDangling(Cur, allocIdx)
 InvX2 == AllListed(Cur, onNode)
 Affs == {"", "sel"} \cup Uids
